@@ -22,9 +22,14 @@ static inline void out_ref(struct ostream *o, strref r) { __CPROVER_assert(r.ptr
 static inline pstr str_shell_escaped(strref p) { pstr r; r.ptr = p.ptr; r.len = p.len; r.escaped = 1; g_escaped_paths++; return r; }
 static inline struct smap_entry *smap_find(struct smap *m, strref name) { return m->hit ? &m->entry : 0; }
 static inline struct smap_entry *smap_end(struct smap *m) { return 0; }
-struct Scope; static inline struct Scope *loader_scope(void *loader) { return (struct Scope *)loader; }
-static inline strref scope_lookup(const void *scope, strref name) { g_scope_lookups++; g_scope_name = name.ptr; strref r; r.ptr = &g_scope_value; r.len = 0; return r; }
+struct Scope; char g_current_scope_marker;
+/* getCurrentScope(): the scope of the file being loaded (a subninja file has its own); any other scope accessor yields a different object */
+static inline struct Scope *loader_scope(void *loader) { return (struct Scope *)&g_current_scope_marker; }
+const void *g_scope_obj;
+static inline strref scope_lookup(const void *scope, strref name) { g_scope_lookups++; g_scope_name = name.ptr; g_scope_obj = scope; strref r; r.ptr = &g_scope_value; r.len = 0; return r; }
 static inline strref pstr_ref(pstr s) { strref r; r.ptr = s.ptr; r.len = s.len; return r; }
 char g_empty_string;
 static inline pstr smap_lookup(struct smap *m, strref name) { if (m->hit) return m->entry.second; pstr e; e.ptr = &g_empty_string; e.len = 0; e.escaped = 0; return e; }
 static inline size_t smap_count(struct smap *m, strref name) { return m->hit ? 1 : 0; }
+char g_root_scope_marker;
+static inline struct Scope *manifest_root_scope(void *manifest) { return (struct Scope *)&g_root_scope_marker; }
